@@ -154,10 +154,10 @@ pub enum Reason { DisconnectedPeer, Other }
 //@ret r
 //@ensures P C10 a-channel-whose-monitor-is-missing-is-dropped-only-if-its-initial-monitor-was-never-persisted-so-its-funding-was-never-broadcast-and-otherwise-the-manager-is-not-loaded
     r is Ok <==> channel.awaiting_initial,
-//@mutant manager_loaded_although_a_needed_monitor_is_missing
-    return Err(DecodeError::InvalidValue); } } for (channel_id, monitor) in args.channel_monitors.iter() { if !channel_id_set.contains(channel_id)
+//@mutant channel_with_a_lost_monitor_silently_dropped
+    } else if channel.is_awaiting_initial_mon_persist() {
 //@with
-    } } for (channel_id, monitor) in args.channel_monitors.iter() { if !channel_id_set.contains(channel_id)
+    } else if !channel.is_awaiting_initial_mon_persist() {
 //@end
 pub struct Mon2 { pub closed: bool, pub latest: u64, pub chan: ChannelId }
 impl Mon2 {
@@ -213,9 +213,9 @@ pub struct Update2 { pub update_id: u64, pub updates: Vec<Step2>, pub channel_id
 //@ensures P C10,C09 the-update-id-remembered-for-a-closed-channel-never-goes-back
     r >= v_, r >= latest_update_id, r == v_ || r == latest_update_id,
 //@mutant remembered_id_lowered_to_the_monitors
-    cmp::max(latest_update_id, *v)
+    cmp::max(latest_update_id, *v)) .or_insert(latest_update_id); } if !should_queue_fc_update
 //@with
-    cmp::min(latest_update_id, *v)
+    cmp::min(latest_update_id, *v)) .or_insert(latest_update_id); } if !should_queue_fc_update
 //@end
 }
 fn main() {}
